@@ -12,6 +12,10 @@ structure Gate where
   misbehaved : Bool := false
   /-- `commitment_cache`: slice index ↦ first commitment seen -/
   cache : List (Nat × Commitment) := []
+  /-- the `verified_sig` component of the `commitment_cache` entries (since the D34 `fix:`): slice index ↦ signature
+      of the shred that seeded the entry. Kept in a second association list that is extended exactly when `cache` is
+      (same keys, same order), so that the gate lemmas about `cache` are untouched. -/
+  sigs : List (Nat × Sig) := []
   lastSlice : Option Nat := none
 deriving Repr, DecidableEq
 
@@ -25,6 +29,10 @@ inductive GateVerdict where
 deriving Repr, DecidableEq
 
 def Gate.cached (g : Gate) (idx : Nat) : Option Commitment := (g.cache.find? (·.1 == idx)).map (·.2)
+
+/-- `Blockstore::cached_commitment(slot, slice)`: the entry with the signature it remembers -/
+def Gate.cachedEntry (g : Gate) (idx : Nat) : Option Cached :=
+  (g.cached idx).map fun c => ⟨c, (g.sigs.find? (·.1 == idx)).map (·.2)⟩
 
 /-- `SlotBlockData::add_shred_from_dissemination` up to and including the last-slice check of
     `BlockData::add_shred`, followed by `flag_leader_misbehavior` on `Equivocation`. -/
@@ -49,7 +57,7 @@ def Gate.add (g : Gate) (v : VShred) : Gate × GateVerdict :=
           else ({ g with misbehaved := true }, .equivocation)
     | none =>
       -- the cache entry is inserted before the last-slice check (and stays when that check fails)
-      let g' := { g with cache := (idx, v.commitment) :: g.cache }
+      let g' := { g with cache := (idx, v.commitment) :: g.cache, sigs := (idx, v.shred.sig) :: g.sigs }
       match g.lastSlice with
       | none =>
         if isLast then
@@ -61,11 +69,12 @@ def Gate.add (g : Gate) (v : VShred) : Gate × GateVerdict :=
         else ({ g' with misbehaved := true }, .equivocation)
 
 /-- `Alpenglow::handle_disseminator_shred` of a node that is not the slot's leader, as far as the blockstore's
-    gate is concerned (`consensus.rs` l.384-424): validate with the blockstore's cached commitment for the slice;
+    gate is concerned (`consensus.rs` l.384-424): validate with the blockstore's cached commitment for the slice
+    (which remembers the signature verified for it);
     an accepted shred goes to `add_shred_from_dissemination`; (after the D16 `fix:`) a validly signed
     *conflicting* commitment flags the leader; a bad signature is dropped silently. -/
 def Gate.nodeHandle (env : Env) (g : Gate) (s : Shred) (leaderPk : Nat) : Gate :=
-  match validate env s (g.cached s.header.sliceIdx) leaderPk with
+  match validate env s (g.cachedEntry s.header.sliceIdx) leaderPk with
   | .ok v => (g.add v).1
   | .error .equivocation => { g with misbehaved := true }
   | .error .invalidSignature => g
